@@ -3,7 +3,9 @@ package c09
 import (
 	"fmt"
 	"math/rand/v2"
+	"regexp"
 	"sort"
+	"strconv"
 	"strings"
 
 	"github.com/ohler55/slip"
@@ -122,49 +124,87 @@ func genFmt(r *rand.Rand, k int) Case {
 	return mkFmt(b.String(), args...)
 }
 
-// fmtDirs lists the directives (modifiers kept, parameters dropped) of a
-// control string, sorted and de-duplicated.
-func fmtDirs(ctl string) string {
-	set := map[string]bool{}
+type fmtDir struct {
+	params string
+	mods   string // "", ":", "@", ":@"
+	ch     byte   // 0 at end of string
+}
+
+// parseDirs splits a control string into its directives the way
+// pkg/cl/control.go reads them: ~ params modifiers char.
+func parseDirs(ctl string) (ds []fmtDir) {
 	for i := 0; i < len(ctl); i++ {
 		if ctl[i] != '~' {
 			continue
 		}
 		j := i + 1
-		mods := ""
+		var colon, at bool
+		p0 := j
+		p1 := j
 		for j < len(ctl) {
 			ch := ctl[j]
 			if ch == '\'' && j+1 < len(ctl) {
 				j += 2
+				p1 = j
 				continue
 			}
-			if ch == ':' || ch == '@' {
-				if !strings.ContainsRune(mods, rune(ch)) {
-					mods += string(ch)
-				}
+			if ch == ':' {
+				colon = true
+				j++
+				continue
+			}
+			if ch == '@' {
+				at = true
 				j++
 				continue
 			}
 			if ch == ',' || ch == '#' || ch == 'v' || ch == 'V' || ch == '-' || ch == '+' || ('0' <= ch && ch <= '9') {
 				j++
+				p1 = j
 				continue
 			}
 			break
 		}
-		d := "<end>"
+		d := fmtDir{params: strings.NewReplacer(":", "", "@", "").Replace(ctl[p0:min(p1, len(ctl))])}
+		if colon {
+			d.mods = ":"
+		}
+		if at {
+			d.mods += "@"
+		}
 		if j < len(ctl) {
-			d = strings.ToUpper(string(ctl[j]))
-			if ctl[j] == '\n' {
-				d = "<nl>"
-			} else if ctl[j] < ' ' || 0x7e < ctl[j] {
-				d = fmt.Sprintf("<%02x>", ctl[j])
+			d.ch = ctl[j]
+			if 'a' <= d.ch && d.ch <= 'z' {
+				d.ch -= 'a' - 'A'
 			}
 		}
-		if mods == "@:" {
-			mods = ":@"
-		}
-		set[mods+d] = true
+		ds = append(ds, d)
 		i = j
+	}
+	return
+}
+
+func (d *fmtDir) name() string {
+	switch {
+	case d.ch == 0:
+		return d.mods + "<end>"
+	case d.ch == '\n':
+		return d.mods + "<nl>"
+	case d.ch < ' ' || 0x7e < d.ch:
+		return fmt.Sprintf("%s<%02x>", d.mods, d.ch)
+	}
+	if d.ch == '*' {
+		return d.mods + "<star>"
+	}
+	return d.mods + string(d.ch)
+}
+
+// fmtDirs lists the directives (modifiers kept, parameters dropped) of a
+// control string, sorted and de-duplicated.
+func fmtDirs(ctl string) string {
+	set := map[string]bool{}
+	for _, d := range parseDirs(ctl) {
+		set[d.name()] = true
 	}
 	var ds []string
 	for d := range set {
@@ -174,6 +214,80 @@ func fmtDirs(ctl string) string {
 	return strings.Join(ds, " ")
 }
 
+var longNumber = regexp.MustCompile(`[0-9]{7,}`)
+
+// fmtRisk recognises the two families of control strings that do not end (or
+// end in memory exhaustion) on the pinned tree and therefore are not
+// generated; see the fmt entries in skiptable.go.
+func fmtRisk(ctl string, args []string) string {
+	ds := parseDirs(ctl)
+	hugeArg := false
+	for _, a := range args {
+		if a == "big62" || a == "big70" || a == "minfix" {
+			hugeArg = true
+		}
+	}
+	for _, d := range ds {
+		if strings.IndexByte(fmtHugeDirs, d.ch) < 0 || d.ch == 0 {
+			continue
+		}
+		if longNumber.MatchString(d.params) || (hugeArg && strings.ContainsAny(d.params, "vV")) {
+			return "fmt-huge-parameter"
+		}
+	}
+	// iterations: a body that consumes no argument, or any ~* jump, can
+	// keep the argument position from advancing
+	depth := 0
+	consumed := []bool{}
+	jump := false
+	iter := false
+	for _, d := range ds {
+		switch d.ch {
+		case '{':
+			iter = true
+			depth++
+			consumed = append(consumed, false)
+		case '}':
+			if 0 < depth {
+				if !consumed[depth-1] {
+					return "by-definition:fmt-iteration-consumes-nothing"
+				}
+				depth--
+				consumed = consumed[:depth]
+				if 0 < depth {
+					consumed[depth-1] = true
+				}
+			}
+		case '*':
+			jump = true
+		case '[':
+			// ~n[ ~#[ and ~@[ select without consuming
+			if 0 < depth && d.params == "" && !strings.Contains(d.mods, "@") {
+				consumed[depth-1] = true
+			}
+		default:
+			if 0 < depth && strings.IndexByte("ASDBOXRCPFEGW$?<", d.ch) >= 0 {
+				consumed[depth-1] = true
+			}
+		}
+	}
+	if iter && jump {
+		return "by-definition:fmt-iteration-consumes-nothing"
+	}
+	// slip finds the end of the body textually ("~}"); "~1~}" reads here as
+	// the directive ~1~ followed by a literal brace, there as a body "~1"
+	for k := 0; k < depth; k++ {
+		if !consumed[k] && strings.Contains(ctl, "~}") {
+			return "by-definition:fmt-iteration-consumes-nothing"
+		}
+	}
+	return ""
+}
+
+// fmtHugeDirs: directives that try to produce as many characters as a
+// parameter says (count, mincol, column, width).
+const fmtHugeDirs = "$%&|~ABDOSTXEFG<"
+
 func fmtCall(scope *slip.Scope, ctl string, args []string) (slip.Object, *sl.Err, string) {
 	form := slip.List{slip.Symbol("common-lisp:format"), nil, slip.String(ctl)}
 	for _, a := range args {
@@ -181,18 +295,15 @@ func fmtCall(scope *slip.Scope, ctl string, args []string) (slip.Object, *sl.Err
 		if po == nil {
 			return nil, nil, "unknown pool object " + a
 		}
+		obj, herr := buildArg(scope, po)
+		if herr != "" {
+			return nil, nil, herr
+		}
 		if po.Form {
-			form = append(form, slip.ReadString(po.Src, scope)[0])
-			continue
+			form = append(form, obj)
+		} else {
+			form = append(form, slip.List{slip.Symbol("quote"), obj})
 		}
-		obj, err := sl.Eval(scope, po.Src)
-		if err != nil {
-			_ = sl.Catch(setupWorld)
-			if obj, err = sl.Eval(scope, po.Src); err != nil {
-				return nil, nil, fmt.Sprintf("pool object %s cannot be built: %s", a, err)
-			}
-		}
-		form = append(form, slip.List{slip.Symbol("quote"), obj})
 	}
 	steps = 0
 	var res slip.Object
@@ -235,28 +346,9 @@ func execFmt(x *fw.Ctx, c *Case) {
 	}
 	switch oc.kind {
 	case "fault":
-		// shrink the control string (delete one byte at a time while the same
-		// kind of fault remains) so that the signature names the directive
-		ctl, args := c.Ctl, c.Args
-		same := func(ct string, ar []string) bool {
-			_, e, h := fmtCall(newScope(), ct, ar)
-			o := classify(e)
-			return h == "" && o.kind == "fault" && o.fault == oc.fault
-		}
-		for changed := true; changed; {
-			changed = false
-			for i := 0; i < len(ctl); i++ {
-				if cand := ctl[:i] + ctl[i+1:]; same(cand, args) {
-					ctl, changed = cand, true
-					i--
-				}
-			}
-			for 0 < len(args) && same(ctl, args[:len(args)-1]) {
-				args, changed = args[:len(args)-1], true
-			}
-		}
-		x.Fail(fmt.Sprintf("fault=%s fmt dirs=%s", oc.fault, fmtDirs(ctl)), "%s => internal fault reported as %s: %s (shrunk: %s)",
-			renderFmt(c.Ctl, c.Args), oc.err.Class, oc.err.Msg, renderFmt(ctl, args))
+		x.Fail(fmtFaultSig(c, oc), "%s => internal fault reported as %s: %s", renderFmt(c.Ctl, c.Args), oc.err.Class, oc.err.Msg)
+	case "raw-panic":
+		x.Fail("raw-go-panic fmt dirs="+dirs, "%s => a bare Go panic value (%s) instead of a condition: %s", renderFmt(c.Ctl, c.Args), oc.err.GoType, oc.err.Msg)
 	case "budget":
 		x.Fail("over-budget fmt dirs="+dirs, "%s => more than %d evaluation steps", renderFmt(c.Ctl, c.Args), stepBudget)
 	case "undocumented":
@@ -271,6 +363,9 @@ func execFmt(x *fw.Ctx, c *Case) {
 
 // skippedFmt: control strings that are not generated (see skiptable.go).
 func skippedFmt(ctl string, args []string) string {
+	if why := fmtRisk(ctl, args); why != "" {
+		return why
+	}
 	for i := range fmtSkips {
 		e := &fmtSkips[i]
 		if e.Ctl != "" && e.Ctl != ctl {
@@ -297,4 +392,168 @@ type fmtSkip struct {
 	Contains string   // substring of the control string
 	Args     []string // argument patterns (prefix)
 	Finding  string
+}
+
+func baseKind(k string) string {
+	if i := strings.IndexByte(k, '['); 0 < i {
+		return k[:i]
+	}
+	return k
+}
+
+// fmtFaultSig names the failing construct of a format fault.
+//   - (values) among the arguments: the evaluator faults before format runs.
+//   - an index fault: the directives fetch c.args[c.argPos] without looking
+//     whether the position is inside the argument list (one family, every
+//     consuming directive has it).
+//   - anything else: the control string is shrunk (whole directives, then
+//     arguments, then single bytes, while the same kind of fault remains)
+//     and the signature lists the directives that are left.
+func fmtFaultSig(c *Case, oc outcome) string {
+	for _, a := range c.Args {
+		if a == "values0" && oc.fault == "index[len0]" {
+			return "fault=index[len0] evaluator arg=(values)"
+		}
+	}
+	try := func(ct string, ar []string) (string, bool) {
+		if skippedFmt(ct, ar) != "" {
+			return "", false
+		}
+		_, e, h := fmtCall(newScope(), ct, ar)
+		o := classify(e)
+		if h != "" || o.kind != "fault" {
+			return "", false
+		}
+		return o.fault, true
+	}
+	if baseKind(oc.fault) == "index" && fmtArgPosFault(c, oc.err.Msg) {
+		// One family: every directive reads c.args[c.argPos] (and the v
+		// parameter) without looking whether the position is inside the
+		// argument list; the position leaves it by exhaustion, by ~n* / ~n@*
+		// past the end or by ~n:* before the start, at top level or in the
+		// sublist an iteration or ~? hands on.
+		return "fault=index fmt argument-position-outside-list"
+	}
+	ctl, args := c.Ctl, c.Args
+	same := func(ct string, ar []string) bool {
+		k, ok := try(ct, ar)
+		return ok && baseKind(k) == baseKind(oc.fault)
+	}
+	for changed := true; changed; {
+		changed = false
+		// whole directives
+		for again := true; again; {
+			again = false
+			pos := dirSpans(ctl)
+			for k := len(pos) - 1; 0 <= k; k-- {
+				if cand := ctl[:pos[k][0]] + ctl[pos[k][1]:]; same(cand, args) {
+					ctl, again, changed = cand, true, true
+					break
+				}
+			}
+		}
+		for 0 < len(args) && same(ctl, args[:len(args)-1]) {
+			args, changed = args[:len(args)-1], true
+		}
+		for 0 < len(args) && same(ctl, args[1:]) {
+			args, changed = args[1:], true
+		}
+		// a directive together with the argument it consumes
+	pair:
+		for again := true; again; {
+			again = false
+			pos := dirSpans(ctl)
+			for k := len(pos) - 1; 0 <= k; k-- {
+				cand := ctl[:pos[k][0]] + ctl[pos[k][1]:]
+				for a := range args {
+					ar := append(append([]string{}, args[:a]...), args[a+1:]...)
+					if same(cand, ar) {
+						ctl, args, again, changed = cand, ar, true, true
+						continue pair
+					}
+				}
+			}
+		}
+		for i := 0; i < len(ctl); i++ {
+			if cand := ctl[:i] + ctl[i+1:]; same(cand, args) {
+				ctl, changed = cand, true
+				i--
+			}
+		}
+	}
+	k, _ := try(ctl, args)
+	if k == "" {
+		k = oc.fault
+	}
+	// the signature keeps the directives that take an argument (the ones
+	// that can meet an unexpected object); brackets, jumps and padding that
+	// survived the shrinking only as carriers are dropped
+	var keep []string
+	for _, d := range strings.Fields(fmtDirs(ctl)) {
+		if strings.ContainsAny(d[len(d)-1:], "ASDBOXRCPFEGW$?/") || strings.HasSuffix(d, ">") && strings.HasPrefix(d, "<") {
+			keep = append(keep, d)
+		}
+	}
+	if len(keep) == 0 {
+		keep = strings.Fields(fmtDirs(ctl))
+	}
+	return sigName(fmt.Sprintf("fault=%s fmt dirs=%s", k, strings.Join(keep, " ")))
+}
+
+var idxLen = regexp.MustCompile(`index out of range \[(-?\d+)\](?: with length (\d+))?`)
+
+// fmtArgPosFault tells whether an index fault is an access to the argument
+// list: the length in the message is the number of arguments given, or the
+// index is negative after a ~* jump, or the control string works on
+// sublists (iteration, ~?) whose length is not known here. An index fault
+// with any other length (a table inside a directive) keeps its own signature.
+func fmtArgPosFault(c *Case, msg string) bool {
+	m := idxLen.FindStringSubmatch(msg)
+	if m == nil {
+		return false
+	}
+	star, sub := false, false
+	for _, d := range parseDirs(c.Ctl) {
+		switch d.ch {
+		case '*':
+			star = true
+		case '{', '?':
+			sub = true
+		}
+	}
+	switch {
+	case sub:
+		return true
+	case m[2] == "":
+		return star && strings.HasPrefix(m[1], "-")
+	}
+	return m[2] == strconv.Itoa(len(c.Args))
+}
+
+// dirSpans gives the [start,end) byte ranges of the directives of ctl.
+func dirSpans(ctl string) (spans [][2]int) {
+	for i := 0; i < len(ctl); i++ {
+		if ctl[i] != '~' {
+			continue
+		}
+		j := i + 1
+		for j < len(ctl) {
+			ch := ctl[j]
+			if ch == '\'' && j+1 < len(ctl) {
+				j += 2
+				continue
+			}
+			if strings.IndexByte(":@,#vV-+0123456789", ch) >= 0 {
+				j++
+				continue
+			}
+			break
+		}
+		if j < len(ctl) {
+			j++
+		}
+		spans = append(spans, [2]int{i, j})
+		i = j - 1
+	}
+	return
 }
